@@ -54,18 +54,88 @@ CLAIMS = {
          "implementations, for every pair of shape-valid numbers over any commutative ring and every pointer-equality "
          "flag consistent with the invariant: results are well-formed and carry exactly the union of names (C03_wf), act "
          "name by name (C03_hom), are independent of layout, zero-padding and storage sharing (C03_layout_irrelevant, "
-         "C03_ptr_irrelevant), equality = agreement per name (C03_eq). Second-order Hessian part: correspondence only "
-         "(exhaustive over layouts) - partial. Correspondence is exhaustive over layouts of a 3/4-name pool, bit-exact.",
+         "C03_ptr_irrelevant), equality = agreement per name (C03_eq). The same for second-order numbers incl. the stored "
+         "half-Hessian per PAIR of names and the product rule with the symmetrised cross term (C03_wf_dual2, C03_hom_dual2, "
+         "C03_layout_irrelevant_dual2, C03_ptr_irrelevant_dual2; Proofs/Dual2Layout.lean); only == on second-order numbers "
+         "remains correspondence-only. Correspondence is exhaustive over layouts of a 3/4-name pool, bit-exact.",
     design_ref="DESIGN.md §3 C03",
-    note=_corr + "f64 rounding modelled (theorems over rings; exact dyadic inputs in the run); Dual2 name-indexed Hessian theorems not yet proved.",
+    note=_corr + "f64 rounding modelled (theorems over rings; exact dyadic inputs in the run); == on Dual2 not a theorem.",
     technique="Lean 4 proof (list induction, name-indexed denotation refinement) + exhaustive-layout differential correspondence"),
  "C17": dict(
     text="Lean 4 theorems for every shape-valid number and every distinct request list: gradient1 = map of per-name "
          "derivatives in request order on both code paths (C17_gradient1, C17_gradient1_dual2), gradient2 entry (i,j) = "
-         "2 x stored half-Hessian per name pair (C17_gradient2), manifold elements (C17_manifold). The manifold product "
-         "rule is checked by a model-free oracle on the implementation (it exposed a genuine defect, since repaired).",
+         "2 x stored half-Hessian per name pair (C17_gradient2), manifold elements (C17_manifold, C17_manifold_elems), "
+         "and the PRODUCT RULE ON MANIFOLDS: over any field with 2 != 0, for all layouts, the manifold element of a*b has "
+         "the value and gradient of M(a)*b + a*M(b) (C17_manifold_product_rule, from the second-order name-indexed product "
+         "rule). The same rule is checked on the implementation by a model-free oracle (it exposed a genuine defect, since "
+         "repaired).",
     design_ref="DESIGN.md §3 C17",
-    note=_corr + "product-rule statement not yet a theorem (oracle only).",
+    note=_corr + "theorems over rings/fields; f64 rounding modelled.",
+    technique="Lean 4 proof over list model + exhaustive request-order correspondence + model-free oracle"),
+ "C18": dict(
+    text="Lean 4 theorems for every scalar type (no algebraic law, so f64 itself): the 3x3 set_order table and value "
+         "preservation (C18_set_order, C18_values_preserved, C18_names_attached), From conversions (C18_from), Number "
+         "arithmetic = contained-type arithmetic and is refused exactly for Dual/Dual2 mixes (C18_number_ops, "
+         "C18_number_ops_refusal, C18_number_cmp_refusal). Correspondence exhaustive over kind x kind x operator.",
+    design_ref="DESIGN.md §3 C18",
+    note=_corr + "refusal = panic observed through catch_unwind.",
+    technique="Lean 4 proof (case analysis, definitional) + exhaustive differential correspondence"),
+ "C19": dict(
+    text="Lean 4 theorems: comparisons depend on values only (C19_ord), abs flips value and all derivative arrays "
+         "together (C19_abs), sum = left fold from zero (C19_sum), a % b = a - trunc(a/b) b in value and per-name "
+         "derivative over any field (C19_rem, C19_rem_def, C19_rem_float), zero/one neutrality (C19_neutral).",
+    design_ref="DESIGN.md §3 C19",
+    note=_corr + "fmod vs a - trunc(a/b) b rounding for huge quotients not modelled; abs at exactly 0 follows the code's `> 0` test.",
+    technique="Lean 4 proof over list model + differential correspondence"),
+ "C01": dict(
+    text="Lean 4 + Mathlib theorems over ℝ for EVERY formula of the grammar (induction on the expression): the model's "
+         "dual-number evaluation returns the plain value (C01_value) and, for every variable name, the true derivative "
+         "of the formula along any differentiable motion of the leaves consistent with their tags (C01_grad_exact, "
+         "C01_partial_derivative), via scalar-jet soundness against Mathlib's HasDerivAt (13 operators incl. Φ via FTC "
+         "and Φ⁻¹ via the inverse function theorem) and a refinement from the list-level dual numbers to jets "
+         "(C01_refines); float/dual mixing = promotion (C01_mixed_eq_promoted), owned = borrowed (C01_variants). "
+         "Correspondence: thousands of random formulas inside the differentiable domain, close-float.",
+    design_ref="DESIGN.md §3 C01",
+    note=_corr + "f64 rounding, glibc exp/log/pow, statrs Φ/Φ⁻¹ modelled not verified; f64/Dual division mixing not in C01_mixed_eq_promoted.",
+    technique="Lean 4 + Mathlib proof (structural induction, HasDerivAt) over hand-written model + differential correspondence"),
+ "C02": dict(
+    text="Lean 4 + Mathlib theorems over ℝ, a complete chain from the list-level code to real analysis: (1) the Dual2 chain "
+         "rules, as scalar 2-jets (value, first, half second derivative), are sound along every twice-differentiable "
+         "curve for every formula (C02_second_exact) and agree with first order in value and gradient (C02_proj); (2) the "
+         "LIST-LEVEL Dual2 arithmetic (alignment of gradient and Hessian blocks by variable name, any layouts) refines "
+         "these jets along every direction in the plane of two variable names (C02_refines, induction over the formula "
+         "with name-indexed specifications of +,-,*,/,pow,exp,log,Φ,Φ⁻¹,abs,neg); hence (3) value, gradient and Hessian "
+         "entries, diagonal and mixed, of the evaluated number are the true derivatives (C02_hessian_exact, "
+         "C02_hessian_entries by polarisation) and the Hessian is symmetric (C02_symmetric); read-back doubles the stored "
+         "half (C02_readback); conversion down drops only the Hessian (C02_from_drops_only_hessian). Correspondence: "
+         "random formulas, Hessian per name pair, symmetry/finite-derivative oracle restricted to formulas whose "
+         "intermediate values are finite.",
+    design_ref="DESIGN.md §3 C02",
+    note=_corr + "as C01: f64 rounding, libm, statrs Φ/Φ⁻¹ modelled not verified; float/Dual2 mixed operators are covered by "
+         "correspondence (the theorems use promoted constants).",
+    technique="Lean 4 + Mathlib proof (second-order jet soundness + list-level refinement by induction) + differential correspondence with symmetry oracle"),
+ "C03": dict(
+    text="Lean 4 theorems over the list-level model of Vars::vars_cmp/to_new_vars/to_union_vars and the Dual +,-,*,== "
+         "implementations, for every pair of shape-valid numbers over any commutative ring and every pointer-equality "
+         "flag consistent with the invariant: results are well-formed and carry exactly the union of names (C03_wf), act "
+         "name by name (C03_hom), are independent of layout, zero-padding and storage sharing (C03_layout_irrelevant, "
+         "C03_ptr_irrelevant), equality = agreement per name (C03_eq). The same for second-order numbers incl. the stored "
+         "half-Hessian per PAIR of names and the product rule with the symmetrised cross term (C03_wf_dual2, C03_hom_dual2, "
+         "C03_layout_irrelevant_dual2, C03_ptr_irrelevant_dual2; Proofs/Dual2Layout.lean); only == on second-order numbers "
+         "remains correspondence-only. Correspondence is exhaustive over layouts of a 3/4-name pool, bit-exact.",
+    design_ref="DESIGN.md §3 C03",
+    note=_corr + "f64 rounding modelled (theorems over rings; exact dyadic inputs in the run); == on Dual2 not a theorem.",
+    technique="Lean 4 proof (list induction, name-indexed denotation refinement) + exhaustive-layout differential correspondence"),
+ "C17": dict(
+    text="Lean 4 theorems for every shape-valid number and every distinct request list: gradient1 = map of per-name "
+         "derivatives in request order on both code paths (C17_gradient1, C17_gradient1_dual2), gradient2 entry (i,j) = "
+         "2 x stored half-Hessian per name pair (C17_gradient2), manifold elements (C17_manifold, C17_manifold_elems), "
+         "and the PRODUCT RULE ON MANIFOLDS: over any field with 2 != 0, for all layouts, the manifold element of a*b has "
+         "the value and gradient of M(a)*b + a*M(b) (C17_manifold_product_rule, from the second-order name-indexed product "
+         "rule). The same rule is checked on the implementation by a model-free oracle (it exposed a genuine defect, since "
+         "repaired).",
+    design_ref="DESIGN.md §3 C17",
+    note=_corr + "theorems over rings/fields; f64 rounding modelled.",
     technique="Lean 4 proof over list model + exhaustive request-order correspondence + model-free oracle"),
  "C18": dict(
     text="Lean 4 theorems for every scalar type (no algebraic law, so f64 itself): the 3x3 set_order table and value "
